@@ -34,7 +34,7 @@ INVARIANTS = {
     "C04": ["G_HeadTruthful", "FencedTerm"],
     "C05": ["OneLeaderPerTerm", "NoTermAboveCoordinator"],
     "C07": ["G_DbIsLogPrefix", "G_DurableNotAhead"],
-    "C08": ["CommitLeHead", "G_AckedDurable"],
+    "C08": ["G_CommitLeHead", "G_AckedDurable"],
 }
 
 
@@ -372,7 +372,8 @@ def run(ctx, pid):
         "known findings (known-findings.json) are guarded in the invariants by history flags set at their trigger",
     ]
     # 1. exhaustive model checking of the closed system, this property's invariants
-    cfgs = ["shard-quick-a.cfg"] if quick else ["shard-quick-a.cfg", "shard-quick-b.cfg", "shard-thorough.cfg"]
+    # a: 2 terms, 2 writes, no faults; f: 2 terms, 1 write, one crash and one stream reset; b: 3 terms
+    cfgs = ["shard-quick-a.cfg", "shard-quick-f.cfg"] if quick else ["shard-quick-a.cfg", "shard-quick-f.cfg", "shard-quick-b.cfg", "shard-thorough.cfg"]
     for c in cfgs:
         cfg = make_cfg(ctx, c, INVARIANTS[pid], name=c)
         r = ctx.tlc("OxiaShardMC", cfg, label=c.replace(".cfg", ""), timeout=max(300, ctx.left()))
